@@ -40,9 +40,12 @@ Lemma drains_dec_ext x s : drains s [IDec x true] (unref_external x s).
 Proof.
   unfold unref_external. destruct (find_id x (s_nodes s)) as [n|] eqn:F.
   - destruct (n_ref n - 1 =? 0)%Z eqn:Z.
-    + econstructor; [cbn; rewrite F, Z; reflexivity|]. cbn.
-      econstructor; [cbn; reflexivity|]. cbn. unfold upd_node. sred.
-      destruct (s_closed s); constructor.
+    + econstructor; [cbn; rewrite F, Z; reflexivity|]. cbn [app].
+      econstructor; [cbn [exec andb]; reflexivity|]. cbn [app]. unfold upd_node at 1 2. sred.
+      destruct (s_closed s); [|constructor].
+      unfold zero_check_closed, upd_node. sred. rewrite find_id_upd by auto with cache. rewrite F.
+      destruct (find_id_some _ _ _ F) as [_ Hx]. rewrite Hx, N.eqb_refl. cbn [n_ref nd_ref].
+      apply Z.eqb_eq in Z. rewrite Z. cbn [Z.eqb]. constructor.
     + econstructor; [cbn; rewrite F, Z; reflexivity|]. constructor.
   - econstructor; [cbn; rewrite F; reflexivity|]. constructor.
 Qed.
@@ -267,7 +270,8 @@ Qed.
    closed cache it calls n.callFinalizer() WITHOUT re-checking the count.  If, between the decrement to 0
    and that check, another goroutine's Get revives the node (0 -> 1, a hit on the still-linked node) and
    a third goroutine closes the cache (without force), the value is finalised while the second
-   goroutine's handle is outstanding.  The unrestricted LTS exhibits it: *)
+   goroutine's handle is outstanding.  The LTS with the pre-repair behaviour ([exec_old]) exhibits it;
+   with the re-read of the count ([exec], after the repair) the same schedule leaves the value alive. *)
 Definition close_race_trace : list action :=
   [ AStart 1 (OGet 0 0 (SfRet 1 true)); AStep 1; AStep 1;      (* goroutine 1: Get constructs value 0, handle 0 *)
     AStart 1 (ORelease 0); AStep 1;                              (* goroutine 1: Release: count 1 -> 0, zero-check pending *)
@@ -276,7 +280,7 @@ Definition close_race_trace : list action :=
     AStep 1 ].                                                    (* goroutine 1: sees closed: callFinalizer *)
 
 Theorem close_race_refuted :
-  exists L, lrun (linit false 0) close_race_trace = Some L /\
+  exists L, lrun_old (linit false 0) close_race_trace = Some L /\
     s_forced (l_g L) = false /\                                   (* not a force-close *)
     handles_on 0 (s_handles (l_g L)) = 1%nat /\                   (* a handle on node 0 is outstanding *)
     handle_node (l_g L) 1 <> None /\ handle_value (l_g L) 1 = None /\   (* ... and sees a dead (nil) value *)
@@ -284,3 +288,8 @@ Theorem close_race_refuted :
 Proof.
   eexists. split; [vm_compute; reflexivity|]. vm_compute. repeat split; auto. discriminate.
 Qed.
+
+Theorem close_race_repaired :
+  exists L, lrun (linit false 0) close_race_trace = Some L /\
+    handles_on 0 (s_handles (l_g L)) = 1%nat /\ handle_value (l_g L) 1 = Some 0 /\ cf 0 (s_log (l_g L)) = 0%nat.
+Proof. eexists. split; [vm_compute; reflexivity|]. vm_compute. repeat split; auto. Qed.
